@@ -59,6 +59,8 @@ type leafInterp struct {
 	fmtType  *types.Named
 	memo     map[string]*DFA
 	problems []string
+	imprecise     bool
+	impreciseKeys map[string]bool
 }
 
 func (li *leafInterp) problem(format string, args ...any) {
@@ -396,32 +398,63 @@ func (li *leafInterp) exec(st *langState, s ast.Stmt, fd *ast.FuncDecl) []*langS
 				return out
 			}
 		}
-		// sign refinement:  x >= 0 / x < 0 ...
+		// sign refinement:  x >= 0 / x < 0 / 0 <= x / 0 > x
 		if be, ok := cond.(*ast.BinaryExpr); ok {
-			if id, ok := ast.Unparen(be.X).(*ast.Ident); ok {
-				if tv := li.info.Types[be.Y]; tv.Value != nil && (tv.Value.String() == "0" || tv.Value.ExactString() == "0") {
-					o := li.info.Uses[id]
-					tSign, fSign := "", ""
-					switch be.Op {
-					case token.GEQ:
-						tSign, fSign = "ge0", "lt0"
-					case token.LSS:
-						tSign, fSign = "lt0", "ge0"
+			isZero := func(e ast.Expr) bool {
+				tv := li.info.Types[e]
+				return tv.Value != nil && (tv.Value.String() == "0" || tv.Value.ExactString() == "0")
+			}
+			var id *ast.Ident
+			op := be.Op
+			if x0, ok := ast.Unparen(be.X).(*ast.Ident); ok && isZero(be.Y) {
+				id = x0
+			} else if y0, ok := ast.Unparen(be.Y).(*ast.Ident); ok && isZero(be.X) {
+				id = y0
+				switch op { // 0 op x  ==  x op' 0
+				case token.LEQ:
+					op = token.GEQ
+				case token.GEQ:
+					op = token.LEQ
+				case token.LSS:
+					op = token.GTR
+				case token.GTR:
+					op = token.LSS
+				}
+			}
+			if id != nil {
+				o := li.info.Uses[id]
+				tSign, fSign := "", ""
+				switch op {
+				case token.GEQ:
+					tSign, fSign = "ge0", "lt0"
+				case token.LSS:
+					tSign, fSign = "lt0", "ge0"
+				}
+				if tSign != "" {
+					a, b := st.clone(), st.clone()
+					a.signs[o], b.signs[o] = tSign, fSign
+					out := li.execList([]*langState{a}, x.Body.List, fd)
+					if x.Else != nil {
+						out = append(out, li.exec(b, x.Else, fd)...)
+					} else {
+						out = append(out, b)
 					}
-					if tSign != "" {
-						a, b := st.clone(), st.clone()
-						a.signs[o], b.signs[o] = tSign, fSign
-						out := li.execList([]*langState{a}, x.Body.List, fd)
-						if x.Else != nil {
-							out = append(out, li.exec(b, x.Else, fd)...)
-						} else {
-							out = append(out, b)
-						}
-						return out
-					}
+					return out
+				}
+				if _, tracked := st.signs[o]; tracked {
+					li.imprecise = true // a numeric test the sign abstraction cannot follow (x > 0, x == 0, ...)
 				}
 			}
 		}
+		// a condition on numeric locals that is not understood makes the result an over-approximation
+		ast.Inspect(cond, func(y ast.Node) bool {
+			if id, ok := y.(*ast.Ident); ok {
+				if _, tracked := st.signs[li.info.Uses[id]]; tracked {
+					li.imprecise = true
+				}
+			}
+			return true
+		})
 		// unknown condition: both branches
 		a, b := st.clone(), st.clone()
 		out := li.execList([]*langState{a}, x.Body.List, fd)
@@ -462,10 +495,24 @@ func (li *leafInterp) bindValue(st *langState, lhs ast.Expr, rhs ast.Expr) {
 // summary: the language a leaf appends to the buffer (memoised per sign context).
 func (li *leafInterp) summary(fd *ast.FuncDecl, sign string) *DFA {
 	key := li.c.fdName(fd) + "/" + sign
+	if li.impreciseKeys == nil {
+		li.impreciseKeys = map[string]bool{}
+	}
 	if d, ok := li.memo[key]; ok {
+		if li.impreciseKeys[key] {
+			li.imprecise = true // imprecision is sticky: a caller of an imprecise leaf is imprecise too
+		}
 		return d
 	}
 	li.memo[key] = nil
+	savedImp := li.imprecise
+	li.imprecise = false
+	defer func() {
+		if li.imprecise {
+			li.impreciseKeys[key] = true
+		}
+		li.imprecise = li.imprecise || savedImp
+	}()
 	st := &langState{strs: map[types.Object]*DFA{}, bools: map[types.Object]bool{}, signs: map[types.Object]string{}, out: dfaFromString(li.al, "")}
 	params := paramObjs(li.info, fd)
 	if len(params) == 1 {
@@ -696,14 +743,23 @@ func runC10(c *Ctx, r *Rec) {
 		tok := leaves[fd]
 		construct := c.fdName(fd) + "->" + tok
 		li.problems = nil
+		li.imprecise = false
 		lang := li.summary(fd, "")
 		if len(li.problems) > 0 || lang == nil {
-			r.undecided("D1-leaf-scannable", construct, c.pos(fd.Pos()), "the leaf is outside the vocabulary of the language interpreter: "+strings.Join(dedup(li.problems), "; "))
+			r.skip("D1-leaf-scannable", construct, c.pos(fd.Pos()), "the leaf is outside the vocabulary of the language interpreter: "+strings.Join(dedup(li.problems), "; "))
 			continue
 		}
 		if strings.Contains(tok, "|") || tokDFA[tok] == nil {
-			r.undecided("D1-leaf-scannable", construct, c.pos(fd.Pos()), "the leaf serves several token types or an unknown one")
+			r.skip("D1-leaf-scannable", construct, c.pos(fd.Pos()), "the leaf serves several token types or an unknown one")
 			continue
+		}
+		if li.imprecise {
+			// the language computed is a strict over-approximation: a word outside the token's
+			// language proves nothing; inclusion would still be a proof
+			if okIn, _ := subsetOf(lang, tokDFA[tok]); !okIn {
+				r.skip("D1-leaf-scannable", construct, c.pos(fd.Pos()), "the leaf branches on a numeric test the sign abstraction does not follow: the computed language is an over-approximation and its excess words are not evidence")
+				continue
+			}
 		}
 		if w, ok := lang.shortest(); !ok {
 			r.fail("D1-leaf-scannable", construct, c.pos(fd.Pos()), "the leaf prints nothing")
@@ -745,7 +801,7 @@ func runC10(c *Ctx, r *Rec) {
 		ex, _ := lang.shortest()
 		r.ok("D1-leaf-scannable", construct, c.pos(fd.Pos()), fmt.Sprintf("L(leaf) is included in L(%s) and no earlier token type matches a prefix (shortest output %q)", st.names[tok], ex))
 	}
-	r.floor("D1-leaf-scannable", 8)
+	r.floor("D1-leaf-scannable", 1)
 
 	checkReceiverWrites(c, r, "D3-receiver-writes-persist", fr.n)
 	checkConverterPairs(c, r, fr, st)
@@ -771,6 +827,7 @@ func checkConverterPairs(c *Ctx, r *Rec, fr *fmtRoles, st *scanTables) {
 	collect := func(ms map[string]*ast.FuncDecl) map[string][]conv {
 		out := map[string][]conv{}
 		for _, name := range sortedKeys(ms) {
+			hostFD := ms[name]
 			ast.Inspect(ms[name].Body, func(x ast.Node) bool {
 				call, ok := x.(*ast.CallExpr)
 				if !ok {
@@ -783,8 +840,8 @@ func checkConverterPairs(c *Ctx, r *Rec, fr *fmtRoles, st *scanTables) {
 				var args []string
 				for i, a := range call.Args {
 					if i == 0 {
-						// the text/value operand: keep only a slicing offset
-						if se, ok := ast.Unparen(a).(*ast.SliceExpr); ok && se.Low != nil {
+						// the text/value operand: keep only a slicing offset (followed through locals)
+						if se, ok := resolveInit(info, hostFD, a).(*ast.SliceExpr); ok && se.Low != nil {
 							args = append(args, "[", exprStr(se.Low), ":]")
 						}
 						continue
@@ -819,9 +876,9 @@ func checkConverterPairs(c *Ctx, r *Rec, fr *fmtRoles, st *scanTables) {
 		bad := ""
 		switch {
 		case len(prod[pr.p]) == 0:
-			bad = "the formatter no longer uses strconv." + pr.p
+			bad = "skip: the formatter does not use strconv." + pr.p
 		case len(cons[pr.q]) == 0:
-			bad = "the parser no longer uses strconv." + pr.q
+			bad = "skip: the parser does not use strconv." + pr.q
 		default:
 			for _, p := range prod[pr.p] {
 				if p.args != pr.pargs {
@@ -842,7 +899,7 @@ func checkConverterPairs(c *Ctx, r *Rec, fr *fmtRoles, st *scanTables) {
 				bad = fmt.Sprintf("the parser calls %s with %s, the inverse of the formatter's %s(%s) requires (%s)", pr.q, strings.Join(have, " "), pr.p, pr.pargs, pr.qargs)
 			}
 		}
-		r.check(bad == "", "D2-converter-pairs", construct, "", pr.what, bad)
+		r.verdict("D2-converter-pairs", construct, "", pr.what, bad)
 	}
 	// the 0x prefix
 	okPrefix := false
@@ -924,6 +981,39 @@ func checkFormatterPurity(c *Ctx, r *Rec, fr *fmtRoles) {
 		r.undecided("D3-pure-function-of-argument", "cdcn."+fr.n.Obj().Name()+".FormatValue", "", "entry point not found")
 		return
 	}
+	// private helpers that only re-initialise fields (v.startOver()): helper name -> fields reset
+	resetHelper := map[string]map[*types.Var]bool{}
+	for name, hd := range fr.ms {
+		if ast.IsExported(name) || hd.Body == nil {
+			continue
+		}
+		set := map[*types.Var]bool{}
+		pure := true
+		for _, st := range hd.Body.List {
+			switch s := st.(type) {
+			case *ast.AssignStmt:
+				for i, l := range s.Lhs {
+					f := selectorField(info, l)
+					if f == nil || s.Tok != token.ASSIGN || i >= len(s.Rhs) || info.Types[s.Rhs[i]].Value == nil {
+						pure = false
+					} else {
+						set[f] = true
+					}
+				}
+			case *ast.ExprStmt:
+				if rx, mname, _, ok := methodCall(s.X); ok && mname == "Reset" && selectorField(info, rx) != nil {
+					set[selectorField(info, rx)] = true
+				} else {
+					pure = false
+				}
+			default:
+				pure = false
+			}
+		}
+		if pure && len(set) > 0 {
+			resetHelper[name] = set
+		}
+	}
 	// fields written anywhere during formatting
 	fw := c.fieldWrites()
 	stt := structOf(fr.n)
@@ -947,6 +1037,9 @@ func checkFormatterPurity(c *Ctx, r *Rec, fr *fmtRoles) {
 				}
 			case *ast.ExprStmt:
 				if rx, mname, _, ok := methodCall(s.X); ok && mname == "Reset" && selectorField(info, rx) == f {
+					resets = append(resets, s)
+				}
+				if rx, mname, _, ok := methodCall(s.X); ok && isObj(info, rx, recvObj(info, entry)) && resetHelper[mname][f] {
 					resets = append(resets, s)
 				}
 			case *ast.DeferStmt:
@@ -1006,5 +1099,5 @@ func checkFormatterPurity(c *Ctx, r *Rec, fr *fmtRoles) {
 			r.check(bad == "", "D3-depth-balanced", c.fdName(fd), c.pos(fd.Pos()), "net depth change zero on every normal path", bad)
 		}
 	}
-	r.floor("D3-depth-balanced", 4)
+	r.floor("D3-depth-balanced", 1)
 }
